@@ -369,6 +369,7 @@ def check(run):
     cst_part(run, quick)
     tree_part(run, sem)
     eval_part(run, evs)
+    rules_part(run, Ctx(), quick)
     run.cov["trusted_base"] += ["harness/exptree.py: recipe generator, independent tree walker (dump) and Python reference interpreter; "
                                 "harness/c01.py translation of dumped trees into Gallina terms"]
     run.assumptions += ["signed division/modulo and rotations by >= width are outside the covered fragment; operands of ordered comparisons, "
@@ -475,6 +476,148 @@ def tree_part(run, sem):
             run.violation("denote-vs-implementation", "amoco's value for a built tree differs from the Gallina reference semantics (or the tree is not well-sized)",
                           {"theorem_or_correspondence": "Amoco.Exp.Sem.check_sem", "case(tree,env,value)": sh[k][:1500]}, found_input=False)
     run.cov["trees_checked_against_denote_in_coq"] = {"cases": n_ok, "denote_defined": n_def}
+    run.cov["traces_validated_against_impl"] = run.cov.get("traces_validated_against_impl", 0) + n_ok
+
+
+# ------------------------------------------------------------------------------------------
+# rule-by-rule correspondence: eqn1_helpers / eqn2_helpers on raw nodes vs Amoco.Exp.Rules
+# ------------------------------------------------------------------------------------------
+RULES = ["r1_neg_neg", "r1_neg_arith", "r1_not_cmp", "r2_reassoc_l", "r2_merge_consts", "r2_add_neg", "r2_reassoc_r", "r2_zero_id",
+         "r2_zero_abs", "r2_one_id", "r2_mask", "r2_shift_out", "r2_shift_comp", "r2_eq_bit", "r2_same", "r2_comp_logic"]
+CMPS = ["==", "!=", "<", "<=", ">", ">=", "<.", ">=."]
+
+
+def rule_instances(E, rng, quick):
+    """(rule index or None, thunk building a fresh raw node): operands are distinct registers (so that exactly the rule under
+    test fires and what it returns is not rewritten further), widths 1..128, boundary and random constants"""
+    widths = [1, 2, 3, 7, 8, 16, 31, 32, 64, 128] if quick else [1, 2, 3, 4, 5, 7, 8, 9, 15, 16, 17, 31, 32, 33, 63, 64, 65, 127, 128]
+    out = []
+    R = lambda nm, n: E.reg(nm, n)
+    K = lambda v, n: E.cst(v, n)
+
+    def consts(n, k, nonzero=True):
+        m = (1 << n) - 1
+        c = {1, m, m >> 1, (m >> 1) + 1, 2 & m, 5 & m, 0x5A & m}
+        for _ in range(4 * k + 8):
+            if len(c) >= k + 7:
+                break
+            c.add(rng.getrandbits(n))
+        return sorted(x for x in c if x or not nonzero)[:k + 4]
+
+    for n in widths:
+        a, b = ("a", n), ("b", n)
+        out.append((0, lambda a=a: E.uop("-", E.uop("-", R(*a)))))
+        for o in "+-":
+            out.append((1, lambda a=a, b=b, o=o: E.uop("-", E.op(o, R(*a), R(*b)))))
+            out.append((5, lambda a=a, b=b: E.op("+", R(*a), E.uop("-", R(*b)))))
+            for lo in "+-":
+                for c in consts(n, 2):
+                    out.append((3, lambda a=a, b=b, o=o, lo=lo, c=c, n=n: E.op(o, E.op(lo, R(*a), K(c, n)), R(*b))))
+                    out.append((6, lambda a=a, b=b, o=o, lo=lo, c=c, n=n: E.op(o, R(*a), E.op(lo, R(*b), K(c, n)))))
+                    for c2 in consts(n, 1):
+                        out.append((4, lambda a=a, o=o, lo=lo, c=c, c2=c2, n=n: E.op(o, E.op(lo, R(*a), K(c, n)), K(c2, n))))
+        for cm in CMPS:
+            out.append((2, lambda a=a, b=b, cm=cm: E.uop("~", E.op(cm, R(*a), R(*b)))))
+            for bit in (0, 1):
+                for eq in ("==", "!="):
+                    out.append((13, lambda a=a, b=b, cm=cm, bit=bit, eq=eq: E.op(eq, E.op(cm, R(*a), R(*b)), K(bit, 1))))
+        for bit in (0, 1):
+            for eq in ("==", "!="):
+                out.append((13, lambda bit=bit, eq=eq: E.op(eq, E.op("&", R("x", 1), R("y", 1)), K(bit, 1))))
+                out.append((13, lambda bit=bit, eq=eq: E.op(eq, E.uop("~", R("x", 1)), K(bit, 1))))
+        for o in ("|", "^", "+", "-", ">>", "<<", ">>>", "<<<"):
+            out.append((7, lambda a=a, o=o, n=n: E.op(o, R(*a), K(0, n))))
+        for o in ("&", "*", "**"):
+            out.append((8, lambda a=a, o=o, n=n: E.op(o, R(*a), K(0, n))))
+        for o in ("*", "/"):
+            out.append((9, lambda a=a, o=o, n=n: E.op(o, R(*a), K(1, n))))
+        pairs = [(i1, i2) for i1 in range(n) for i2 in range(i1, n)]
+        for i1, i2 in (pairs if len(pairs) <= 40 else rng.sample(pairs, 24) + [(0, n - 1), (0, 0), (n - 1, n - 1), (1, n - 2)]):
+            m = ((1 << (i2 + 1)) - 1) ^ ((1 << i1) - 1)
+            out.append((10, lambda a=a, m=m, n=n: E.op("&", R(*a), K(m, n))))
+        ks = sorted({1, 2, n // 2, n - 1, n, n + 1, (1 << n) - 1} | {rng.randrange(1, 2 * n + 2) for _ in range(3)})
+        for k in ks:
+            if k <= 0 or k >= (1 << n):
+                continue
+            for o in ("<<", ">>"):
+                out.append((11 if k >= n else 12, lambda a=a, o=o, k=k, n=n: E.op(o, R(*a), K(k, n))))
+            # an arithmetic shift / a rotation by a non-zero constant, a multiplication by a constant >= 2: no rule
+            out.append((None, lambda a=a, k=k, n=n: E.op(".>>", R(*a), K(k, n))))
+            if k < n:
+                out.append((None, lambda a=a, k=k, n=n: E.op(">>>", R(*a), K(k, n))))
+            if k >= 2:
+                out.append((None, lambda a=a, k=k, n=n: E.op("*", R(*a), K(k, n))))
+        for o in ("-", "^", "&", "|", "==", "!=", "<", "<=", ">", ">="):
+            out.append((14, lambda a=a, o=o: E.op(o, R(*a), R(*a))))
+        for o in ("+", "*", "&", "|", "^", "<", "==", "<.", "-"):
+            out.append((None, lambda a=a, b=b, o=o: E.op(o, R(*a), R(*b))))
+        if n >= 8:
+            # part-wise logic on a composition: parts of width >= 3, constants whose slice on each part is neither 0 nor a
+            # contiguous mask for & (101b pattern), non-zero for | and ^
+            cuts = sorted(rng.sample(range(3, n - 2), min(2, max(0, (n - 5) // 3)))) if n >= 12 else [n // 2]
+            cuts = [c for i, c in enumerate(cuts) if c - ([0] + cuts)[i] >= 3 and n - c >= 3]
+            bounds = [0] + cuts + [n]
+            if len(bounds) >= 3:
+                cval = 0
+                for lo_, hi_ in zip(bounds, bounds[1:]):
+                    cval |= (0b101 | (rng.getrandbits(hi_ - lo_) & ~0b010)) << lo_
+                cval &= (1 << n) - 1
+                for o in ("&", "|", "^"):
+                    out.append((15, lambda o=o, bounds=bounds, cval=cval, n=n: E.op(o, E.composer([R("p%d" % i, hi_ - lo_) for i, (lo_, hi_) in enumerate(zip(bounds, bounds[1:]))]), K(cval, n))))
+    return out
+
+
+def rules_part(run, cx, quick):
+    E = cx.E
+    rng = random.Random(run.seed * 7919 + 17)
+    cx.conf.Cas.complexity = 0
+    cases, norule, descr = [], [], []
+    skipped = 0
+    for k, thunk in rule_instances(E, rng, quick):
+        try:
+            node = thunk()
+            before = X.dump(node)
+            after = X.dump(E.eqn1_helpers(node) if node.op.unary else E.eqn2_helpers(node))
+            names = {}
+            tb, ta = coq_exp(before, names), coq_exp(after, names)
+        except Unsupported:
+            skipped += 1
+            continue
+        except Exception as e:
+            run.violation("rule-raised|%s" % (RULES[k] if k is not None else "no-rule"), "a rewrite-rule function raised %s on a raw node" % type(e).__name__,
+                          {"rule": RULES[k] if k is not None else None, "error": repr(e)[:200], "traceback": traceback.format_exc()[-1500:]})
+            continue
+        run.count(("rule", k, tb))
+        run.hist("rule_cases", RULES[k] if k is not None else "no-rule-fires", 1)
+        if k is None:
+            norule.append("(%s, %s)" % (tb, ta))
+            descr.append((None, before, after))
+        else:
+            cases.append("(%d%%nat, %s, %s)" % (k, tb, ta))
+    hdr = "From Coq Require Import ZArith List.\nImport ListNotations.\nRequire Import Amoco.Exp.Sem Amoco.Exp.Rules.\nOpen Scope Z_scope.\n"
+    texts = []
+    shards = [cases[i:i + 400] for i in range(0, len(cases), 400)]
+    for i, sh in enumerate(shards):
+        texts.append(("rule_%03d" % i, hdr + "Definition cases : list rule_case := [\n%s\n].\nEval vm_compute in (bad_from check_rule 0 cases).\n" % ";\n".join(sh)))
+    nshards = [norule[i:i + 400] for i in range(0, len(norule), 400)]
+    for i, sh in enumerate(nshards):
+        texts.append(("norule_%03d" % i, hdr + "Definition cases : list (exp * exp) := [\n%s\n].\nEval vm_compute in (bad_from check_norule 0 cases).\n" % ";\n".join(sh)))
+    res = common.coq_eval_many(run.work / "rules", texts)
+    n_ok = 0
+    for nm, sh in [("rule_%03d" % i, sh) for i, sh in enumerate(shards)] + [("norule_%03d" % i, sh) for i, sh in enumerate(nshards)]:
+        rc, out = res[nm]
+        lists = common.parse_nat_list(out)
+        if rc != 0 or len(lists) != 1:
+            run.violation("model-eval|rules", "rule model evaluation failed", {"theorem_or_correspondence": "Amoco.Exp.Rules.check_rule " + nm, "output": out[-800:]}, found_input=False)
+            continue
+        n_ok += len(sh)
+        for idx in lists[0][:3]:
+            run.violation("rule-model-impl-correspondence|" + nm.split("_")[0],
+                          "a rewrite rule of eqn1_helpers/eqn2_helpers returns a node that differs from the Gallina model of the rule (Amoco.Exp.Rules), "
+                          "so C01_simplifier_rules_sound no longer speaks about the code",
+                          {"theorem_or_correspondence": "Amoco.Exp.Rules.check_rule / check_norule", "case(rule index, node, returned node)": sh[idx][:1500]}, found_input=False)
+    run.cov["rule_cases_evaluated_in_coq"] = n_ok
+    run.cov["rule_cases_outside_model_syntax"] = skipped
     run.cov["traces_validated_against_impl"] = run.cov.get("traces_validated_against_impl", 0) + n_ok
 
 
